@@ -396,8 +396,8 @@ def convert_events(path, dedupe=None):
     with open(path, "rb") as fh:
         for raw in fh:
             raw = raw.strip()
-            if not raw:
-                continue
+            if not raw or b'"ev":"BCall"' not in raw:
+                continue              # other hooks (driver, store) write to the same trace file
             n += 1
             if dedupe is not None:
                 h = hashlib.sha1(raw).digest()
